@@ -9,6 +9,9 @@ unless the page holds a single data row.  The line lower bound of a data row is
 max over its cells of ⌈width(text shown in the cell, the cell's font, the cell's size) / the column's width⌉,
 measured here with the real get_string_width on the text read back from the output — not rtflite's own estimate,
 and whatever the dtype of the column.
+Group values need not be visible texts: '' / blanks give a blank spanning row, which is a row of the page like any
+other (counted from the OUTPUT); the edge stream (gen_edge) draws them, with documents whose groups do not straddle
+pages, so that an unreserved heading row cannot hide behind a continuation heading.
 Known findings (known_findings.json): D3 auto-populated headers are rendered but not reserved; D4 page_by heading
 rows are reserved once per group start but rendered per level and again on every continuation page.  A page is
 excused only while its excess is within what the listed findings explain for that very page.
@@ -27,7 +30,9 @@ MANIFEST = dict(
          "refuted by two concrete witnesses (recorded as known findings). Tied to the code by observation over body "
          "fonts 1..10, sizes 6..24, all strategies and reservations, with data columns of every rendered dtype "
          "(strings, integers, floats, booleans, dates, datetimes, times, decimals, categoricals, nulls) holding the "
-         "row's tallest cell.",
+         "row's tallest cell, and with group values of the edge family ('', blanks, null, '-----', 'None', 'nan', "
+         "numbers, booleans, the column's name, wrapping texts) at every page_by / subline_by level, in documents "
+         "whose groups do and do not straddle pages (a blank spanning row is a row).",
     note="The unchanged code violates C03 in two recorded classes (auto headers, page_by heading rows); the check "
          "prints KNOWN-FINDING for them and reports any excess beyond what they explain. Pillow widths are measured; "
          "the text measured for a data cell is the text the real output shows in that cell (read back from the RTF), "
@@ -43,7 +48,13 @@ RULE = ("single-section tagged tables, 0..60 rows with 1..4-line rows produced b
         "UInt64 / Float64 / Float32 / Boolean / Date / Datetime / Time / Decimal / Categorical, with nulls) in their "
         "unformatted display forms (unrounded floats, 19-digit integers, microsecond timestamps), per-column fonts and "
         "sizes, equal and unequal col_rel_width, portrait / landscape / narrow col_width, so that the tallest cell "
-        "of a row (1..6 lines) is a cell of each of those dtypes; non-trivial = ≥ 2 pages with at least one page filled to within one row "
+        "of a row (1..6 lines) is a cell of each of those dtypes; plus grouped tables under every grouping strategy "
+        "whose page_by / subline_by VALUES come from the edge family — '' and blanks (a blank spanning row is rendered), "
+        "null, the '-----' divider, 'None' / 'nan' / 'null', numeric and boolean texts and genuinely numeric / boolean "
+        "key columns, the column's own name, values long enough to wrap — at every level and for first / middle / last "
+        "groups, a third of them with groups tiled so that none straddles a page (pages start at a group start and are "
+        "filled to exactly nrow: no continuation heading could explain an excess); spanning rows of such documents are "
+        "recognised by elimination (every other row is tagged), whatever they show; non-trivial = ≥ 2 pages with at least one page filled to within one row "
         "of its capacity; distinct by (strategy, nrow, font, size, rows per page)")
 
 
@@ -194,9 +205,77 @@ class C03(layfamily.Family):
     BASE = dict(quick=300, thorough=4000)
     TYPED = dict(quick=120, thorough=1200)
 
+    EDGE = dict(quick=240, thorough=2400)
+
     def ndocs(self, tier):
         t = "quick" if tier == "quick" else "thorough"
-        return self.BASE[t] + self.TYPED[t]
+        return self.BASE[t] + self.TYPED[t] + self.EDGE[t]
+
+    def gen_edge(self, rng, k, tier):
+        """documents k ≥ BASE + TYPED: group VALUES of the edge family ('', blanks, null, '-----', 'None', 'nan',
+        numeric / boolean texts and columns, the column's own name, headings that wrap) at every level of page_by /
+        subline_by, for first / middle / last groups, under every grouping strategy; a third of them with groups
+        that do NOT straddle pages (laygen.aligned_keys), so that a page's excess can only come from its own rows"""
+        font = rng.choice([1, 1, 1, 4, 9])
+        size = rng.choice([9, 9, 9, 8, 10])
+        # three of four documents have no auto-populated header (the known finding D3 could explain one row with it)
+        hm = ["explicit", "none", "explicit2", "default", "no_colheader", "explicit", "explicit2", "none"][k % 8]
+        if k % 3 == 0:
+            strategy = ["page_by", "page_by", "page_by_np_first", "subline_page_by"][(k // 3) % 4]
+            nrow = rng.randint(5, 24)
+            # mostly documents whose every reserved row is also rendered on every page (header repeated, footnote /
+            # source as table rows on all pages), so that exactly filled pages show exactly nrow rows
+            exact = k % 4 != 3
+            spec, info = laygen.gen_spec(rng, strategy=strategy, header_mode=hm, n=rng.randint(nrow, 4 * nrow),
+                                         nrow=nrow, long_rows=False, levels=1, font=font, size=size,
+                                         footnote=rng.choice(["absent", "table"]) if exact else None,
+                                         source=rng.choice(["absent", "absent", "table"]) if exact else None,
+                                         placements=(rng.choice(["first", "last", "all"]), "all", "all") if exact else None,
+                                         pageby_header=True if exact else None)
+            laygen.aligned_keys(rng, spec, info)
+        else:
+            strategy = ["page_by", "page_by_np_first", "subline_page_by", "subline", "page_by", "page_by_np"][(k // 3) % 6]
+            spec, info = laygen.gen_spec(rng, strategy=strategy, header_mode=hm, n=rng.randint(2, 60),
+                                         nrow=rng.randint(3, 30), long_rows=(k % 2 == 0), dividers=(k % 5 == 0),
+                                         font=font, size=size)
+            laygen.edge_keys(rng, spec, info)
+        return spec, info
+
+    def worker_extra(self, spec, info, ob):
+        """what the real output showed of the edge-valued groups: which kinds of value got a spanning row, and on which
+        kinds of page — `tight-unexcused`: the page starts at a group start (no continuation heading), has no
+        auto-populated header, renders no more headings than it has group starts, and is filled to exactly nrow —
+        one row more on such a page is a violation nothing explains"""
+        if not info.get("edge_keys"):
+            return None
+        out = set()
+        cols, rows = spec["df"]["cols"], spec["df"]["rows"]
+        pb = info["page_by"] or []
+        idx = [cols.index(c) for c in pb]
+
+        def key(i):
+            return [str(rows[i][j]) for j in idx]
+        for blocks in ob["pages"]:
+            for b in blocks:
+                if b[0] == "heading":
+                    out.add("edge-heading-rendered:" + (laygen.edge_kind(b[2], None) or
+                                                        ("number" if laygen._NUMKEY.match(b[2]) else "tagged")))
+                elif b[0] == "sublineHeading" and not b[1].startswith("SB"):
+                    out.add("edge-subline-heading-rendered:" + (laygen.edge_kind(b[1], None) or "other"))
+            data = [b[1] for b in blocks if b[0] == "data" and b[1] < len(rows)]
+            if not pb or len(data) < 2 or info["header_mode"] == "default":
+                continue
+            starts = [i for i in data if i == 0 or key(i) != key(i - 1)]
+            nspan = sum(1 for b in blocks if b[0] == "heading")
+            if data[0] not in starts or nspan > len(starts):
+                continue
+            tot = (sum(1 for b in blocks if b[0] in ("colHeader", "heading", "sublineHeading"))
+                   + sum(1 for b in blocks if b[0] in ("footnote", "source") and b[1] is True) + len(data))
+            kinds = {laygen.edge_kind(rows[i][j], c) for i in starts for j, c in zip(idx, pb)} - {None}
+            if tot == info["nrow"]:
+                out.add("edge-tight-unexcused-page")
+                out.update("edge-tight-unexcused-page-with-group:" + str(kd) for kd in kinds)
+        return sorted(out)
 
     def gen_typed(self, rng, k, tier):
         """documents k ≥ BASE: data columns of every rendered dtype (integers, floats, booleans, dates, datetimes,
@@ -215,6 +294,8 @@ class C03(layfamily.Family):
 
     def labels(self, o):
         info = o["info"]
+        if info.get("edge_keys"):
+            return list(o.get("extra") or [])
         if not info.get("typed"):
             return []
         out = ["typed-columns-doc"]
@@ -225,7 +306,10 @@ class C03(layfamily.Family):
         return out
 
     def gen(self, rng, k, tier):
-        if k >= self.BASE["quick" if tier == "quick" else "thorough"]:
+        t = "quick" if tier == "quick" else "thorough"
+        if k >= self.BASE[t] + self.TYPED[t]:
+            return self.gen_edge(rng, k, tier)
+        if k >= self.BASE[t]:
             return self.gen_typed(rng, k, tier)
         font = rng.choice([1, 1, 2, 3, 4, 5, 6, 7, 8, 9, 10])
         size = rng.choice([9, 9, 6, 7.5, 8, 10, 12, 14, 18, 24])
@@ -311,8 +395,15 @@ class C03(layfamily.Family):
         return fails
 
     def project(self, pages, info):
-        return [[b for b in p if b[0] in ("colHeader", "heading", "sublineHeading", "data", "footnote", "source")]
-                for p in pages]
+        out = [[b for b in p if b[0] in ("colHeader", "heading", "sublineHeading", "data", "footnote", "source")]
+               for p in pages]
+        if info.get("edge_keys"):
+            # group values without a level tag: a spanning row is compared by its text and position, not its level;
+            # a subline_by heading whose joined text is '' is a block of the role model that the renderer writes
+            # nothing for (`if not text: return ""` — Model.Encode.renderBlock does the same)
+            out = [[(["heading", b[2]] if b[0] == "heading" else b) for b in p
+                    if not (b[0] == "sublineHeading" and b[1] == "")] for p in out]
+        return out
 
     def nontrivial(self, spec, info, ob):
         pages = ob["pages"]
